@@ -151,8 +151,8 @@ func runSingle(name, tier string, trace bool, workers int, noReplay bool) int {
 
 func printSummary(r *harnessResult) {
 	sh := r.sh
-	fmt.Printf("harness %s: paths=%d decisions=%d steps=%d maxPathSteps=%d queries=%d (sat %d unsat %d unknown %d) solver=%.1fs wall=%.1fs\n",
-		r.spec.Name, sh.Paths, sh.Decisions, sh.Steps, sh.MaxPathSteps, sh.Queries, sh.SatN, sh.UnsatN, sh.UnknownN, sh.SolverTime, r.wall)
+	fmt.Printf("harness %s: paths=%d decisions=%d steps=%d maxPathSteps=%d queries=%d (sat %d unsat %d unknown %d) evalwitness=%d solver=%.1fs wall=%.1fs\n",
+		r.spec.Name, sh.Paths, sh.Decisions, sh.Steps, sh.MaxPathSteps, sh.Queries, sh.SatN, sh.UnsatN, sh.UnknownN, sh.EvalWitness, sh.SolverTime, r.wall)
 	fmt.Printf("  path ends: %v\n", sh.PathsEnded)
 	for _, m := range sh.Inconclusive {
 		fmt.Printf("  inconclusive: %s\n", m)
